@@ -2,8 +2,10 @@
 //! directly and the Engine's late-data gate (engine/mod.rs process_inner) through VPL programs.
 //!
 //! Requests (one JSON per line):
-//!   {"kind":"tracker","ops":[["reg",name,ooo],["obs",name,ts],["adv",name,wm]..]}
-//!   {"kind":"engine","program":"<vpl>","ops":[["ev",type,ts,id],["extwm",name,t],["reg",name,ooo]..]}
+//!   {"kind":"tracker","regs":[[name,ooo]..] (optional),"ops":[["reg",name,ooo],["obs",name,ts],["adv",name,wm],["ckr","",0]..]}
+//!   {"kind":"engine","program":"<vpl>","ops":[["ev",type,ts,id],["extwm",name,t],["reg",name,ooo],["ckr"]..]}
+//! "ckr" (property C19, watermark part): checkpoint, then a fresh object (tracker: created with "regs" again;
+//! engine: a new Engine with the program loaded again), restore the checkpoint into it and carry on with it.
 //! Times are integer ticks (1 tick = 1 s) relative to a fixed base instant.
 //! Answer: {"steps":[{"eff": ticks|null, "src": [[name, wm ticks|null, max ticks|null, ooo ticks],..] sorted by name,
 //!                    "out": [[stream, id],..] (engine only, channel order)} ..]}
@@ -51,7 +53,16 @@ fn cp_json(cp: &WatermarkCheckpoint) -> J {
 }
 
 fn run_tracker(req: &J) -> J {
-    let mut tr = PerSourceWatermarkTracker::new();
+    let fresh = || {
+        let mut tr = PerSourceWatermarkTracker::new();
+        if let Some(regs) = req["regs"].as_array() {
+            for r in regs {
+                tr.register_source(r[0].as_str().unwrap(), Duration::seconds(r[1].as_i64().unwrap()));
+            }
+        }
+        tr
+    };
+    let mut tr = fresh();
     let mut steps = Vec::new();
     for op in req["ops"].as_array().unwrap() {
         let o = op.as_array().unwrap();
@@ -61,6 +72,12 @@ fn run_tracker(req: &J) -> J {
             "reg" => tr.register_source(name, Duration::seconds(n)),
             "obs" => tr.observe_event(name, t(n)),
             "adv" => tr.advance_source_watermark(name, t(n)),
+            "ckr" => {
+                let cp = tr.checkpoint();
+                let mut t2 = fresh();
+                t2.restore(&cp);
+                tr = t2;
+            }
             x => panic!("tracker op {}", x),
         }
         let cp = tr.checkpoint();
@@ -95,6 +112,20 @@ fn run_engine(req: &J) -> J {
                 eng.enable_watermark_tracking();
                 eng.register_watermark_source(o[1].as_str().unwrap(), Duration::seconds(o[2].as_i64().unwrap()));
                 Ok(())
+            }
+            "ckr" => {
+                let cp = eng.create_checkpoint();
+                let (tx2, rx2) = tokio::sync::mpsc::channel::<Event>(100_000);
+                let mut e2 = Engine::new(tx2);
+                match e2.load(&program) {
+                    Err(e) => Err(format!("reload: {}", e)),
+                    Ok(()) => {
+                        let r = e2.restore_checkpoint(&cp).map_err(|e| format!("restore: {:?}", e));
+                        eng = e2;
+                        rx = rx2;
+                        r
+                    }
+                }
             }
             x => panic!("engine op {}", x),
         };
